@@ -1109,6 +1109,17 @@ func (m *Monitors) onJob(ev *Event) {
 		// else about this write: what follows from a regressed task (a finished Job that changes its result or
 		// becomes unfinished again, further tasks, siblings stopped) is a consequence, not a second defect.
 		for _, ot := range old.Status.Tasks {
+			for _, nt := range j.Status.Tasks {
+				// the recorded times survive even that (judged first: a cleared time is not part of the recorded finding)
+				if nt.Name == ot.Name && !ot.RunningTimestamp.IsZero() && nt.RunningTimestamp.IsZero() {
+					m.fail("C11", "running-timestamp-cleared", "Job %s task %s running timestamp was cleared", j.Name, ot.Name)
+				}
+				if nt.Name == ot.Name && !ot.FinishTimestamp.IsZero() && nt.FinishTimestamp.IsZero() {
+					m.fail("C11", "finish-timestamp-cleared", "Job %s task %s finish timestamp was cleared", j.Name, ot.Name)
+				}
+			}
+		}
+		for _, ot := range old.Status.Tasks {
 			if ot.Status.State != execution.TaskTerminated {
 				continue
 			}
@@ -1352,11 +1363,13 @@ func (m *Monitors) checkJobTransition(ev *Event, jr *jobRec, old, j *execution.J
 				continue
 			}
 			found = true
-			if !ot.RunningTimestamp.IsZero() && nt.RunningTimestamp.IsZero() {
-				m.fail("C11", "running-timestamp-cleared", "Job %s task %s running timestamp was cleared", j.Name, ot.Name)
-			}
-			if !ot.FinishTimestamp.IsZero() && nt.FinishTimestamp.IsZero() {
-				m.fail("C11", "finish-timestamp-cleared", "Job %s task %s finish timestamp was cleared", j.Name, ot.Name)
+			if !(ev.Type == Modified && isCtrl(ev.Actor)) { // controller writes: judged at the top
+				if !ot.RunningTimestamp.IsZero() && nt.RunningTimestamp.IsZero() {
+					m.fail("C11", "running-timestamp-cleared", "Job %s task %s running timestamp was cleared", j.Name, ot.Name)
+				}
+				if !ot.FinishTimestamp.IsZero() && nt.FinishTimestamp.IsZero() {
+					m.fail("C11", "finish-timestamp-cleared", "Job %s task %s finish timestamp was cleared", j.Name, ot.Name)
+				}
 			}
 		}
 		if !found {
